@@ -23,6 +23,12 @@
 #define CARQUET_MAX_PATH_ELEMENTS     100     /* Max path depth */
 #define CARQUET_MAX_ENCODING_STATS    100     /* Max encoding stats entries */
 
+/* The parser rejects metadata beyond these limits: writers ask for them so that they
+ * refuse to produce a file carquet itself cannot open. */
+int32_t parquet_max_schema_elements(void) { return CARQUET_MAX_SCHEMA_ELEMENTS; }
+int32_t parquet_max_row_groups(void) { return CARQUET_MAX_ROW_GROUPS; }
+int32_t parquet_max_columns_per_row_group(void) { return CARQUET_MAX_COLUMNS_PER_RG; }
+
 /* Validate count is within reasonable bounds before allocation */
 #define VALIDATE_COUNT(count, max, dec) \
     do { \
